@@ -255,7 +255,45 @@ class _Table:
         self.settings = settings
         port, outpath = self.port, self.outpath
 
+        via = cfg.get('via_main')
+        if via:
+            # the command line: the boards come from a file (written here by the
+            # real settings writer, or rendered as a PBN import file) and the
+            # session starts at the restart index
+            import logging as _logging
+            world._set(_logging, 'basicConfig', lambda *a, **k: None)
+            sfile = pathlib.Path(cfg['outdir']) / f'boards-{os.getpid()}-{cfg.get("tag", 0)}.{via["format"]}'
+            if via['format'] == 'json':
+                from bridge_env.data_handler.json_handler.writer import JsonBoardSettingWriter
+                with open(sfile, 'w') as fw:
+                    with JsonBoardSettingWriter(fw) as w:
+                        for b in settings:
+                            w.write(board_id=b.board_id, dealer=b.dealer, deal=b.hands, vul=b.vul,
+                                    dda=b.dda)
+            else:
+                with open(sfile, 'w', newline='') as fw:
+                    fw.write('% PBN 2.1\n% EXPORT\n')
+                    for k_, b in enumerate(settings):
+                        fw.write(f'[Event "x"]\n[Board "{b.board_id}"]\n[Dealer "{b.dealer}"]\n'
+                                 f'[Vulnerable "{b.vul}"]\n'
+                                 f'[Deal "{b.hands.to_pbn(Player(1 + k_ % 4))}"]\n\n')
+            self.settings_file = sfile
+
         def main_fn():
+            if via:
+                import sys as _sys
+                old_argv = _sys.argv
+                _sys.argv = ['server', '-p', str(port), '-i', '127.0.0.1', '-b', str(sfile),
+                             '-r', str(via['restart']), '-o', str(outpath)]
+                try:
+                    smod.main()
+                finally:
+                    _sys.argv = old_argv
+                    try:
+                        sfile.unlink()
+                    except OSError:
+                        pass
+                return
             try:
                 with smod.Server(ip_address='127.0.0.1', port=port, output_file_path=outpath,
                                  board_settings=settings) as server:
